@@ -27,6 +27,7 @@ EXTENDS Integers, Sequences, FiniteSets, TLC
 CONSTANTS KV,           \* label names served by the key/value index
           GL,           \* "global" pseudo label names (profiles); {} for Prometheus
           MaxSeries, MaxMatchers,
+          SVals,        \* the values a label of a stored series may have ("" = the series does not carry the label)
           EqPats,       \* values used with = and !=
           RePats,       \* regex atoms used with =~ and !~
           Ops,
@@ -54,7 +55,7 @@ Part(p) == CASE p = "x"  -> {"x", "xy"}
              [] p = ".+" -> Vals
              [] p = ""   -> V0
 
-Series == {s \in [Names -> V0] : \A g \in GL : s[g] # ""}
+Series == {s \in [Names -> SVals] : \A g \in GL : s[g] # ""}
 
 RECURSIVE UpTo(_, _)
 UpTo(S, k) == IF k = 0 THEN {{}} ELSE LET P == UpTo(S, k - 1) IN P \cup {T \cup {e} : T \in P, e \in S}
